@@ -139,7 +139,7 @@ Fixpoint lrun (s : lru) (ops : list lop) : lru * list (lres * list entry) :=
 Definition others (k : nat) (l : list entry) : list entry := filter (fun e => negb (k =? fst e)) l.
 Definition lookup (k : nat) (l : list entry) : option entry := find (fun e => k =? fst e) l.
 
-Definition sstep (l : list entry) (o : lop) : list entry * lres :=
+Definition lref_step (l : list entry) (o : lop) : list entry * lres :=
   match o with
   | LPut k v => ((k, v) :: others k l, RUnit)
   | LTouch k => match lookup k l with Some e => (e :: others k l, RUnit) | None => (l, RErr) end
@@ -154,11 +154,11 @@ Definition sstep (l : list entry) (o : lop) : list entry * lres :=
   | LClear => ([], RUnit)
   end.
 
-Fixpoint srun (l : list entry) (ops : list lop) : list entry * list (lres * list entry) :=
+Fixpoint lref_run (l : list entry) (ops : list lop) : list entry * list (lres * list entry) :=
   match ops with
   | [] => (l, [])
-  | o :: t => let '(l1, r) := sstep l o in
-              let '(l2, rs) := srun l1 t in (l2, (r, l1) :: rs)
+  | o :: t => let '(l1, r) := lref_step l o in
+              let '(l2, rs) := lref_run l1 t in (l2, (r, l1) :: rs)
   end.
 
 (** a history is valid when it respects the one documented precondition: pop() only on a non-empty cache *)
@@ -167,6 +167,6 @@ Fixpoint lvalid (l : list entry) (ops : list lop) : bool :=
   | [] => true
   | o :: t => match o, l with
               | LPop, [] => false
-              | _, _ => lvalid (fst (sstep l o)) t
+              | _, _ => lvalid (fst (lref_step l o)) t
               end
   end.
